@@ -262,7 +262,7 @@ def body(code, ci, s0, s1, sn, rel, ek, bn):
             ha = calc_ast_hash(A)
             ha2 = calc_ast_hash(A)
             with nt():
-                find_leaf(A, c).value = (c + "z") if isinstance(c, str) else ((not c) if isinstance(c, bool) else c + 1)
+                find_leaf(A, c).value = (c + "z") if isinstance(c, str) else ((not c) if isinstance(c, bool) else (-c if isinstance(c, float) else c + 1))
             hb = calc_ast_hash(A)
             if ha == hb and ha == ha2:
                 return "hash did not change after the tree was edited in place"
